@@ -616,7 +616,10 @@ func (propC20) Exec(p *Plan, x *Ctx) *Outcome {
 						}
 						clsEdges[src.cls][ms[o.H].cls] = true
 					}
-					if src.known && !src.v.HasNaN() {
+					// a slot whose object was changed in place through another holder (id -1) is not
+					// tracked by the model: what it holds now (possibly a NaN, which equals nothing) is read
+					// from the source itself
+					if src.known && !src.v.HasNaN() && !FromVariant(hs[o.H2]).HasNaN() {
 						if !equalsBoth(i, o.H, o.H2, "clone", true) {
 							return
 						}
